@@ -41,6 +41,7 @@ import (
 	proxyoptions "github.com/kubewharf/kubegateway/pkg/gateway/proxy/options"
 	"github.com/kubewharf/kubegateway/pkg/ratelimiter/limiter"
 	"github.com/kubewharf/kubegateway/pkg/ratelimiter/options"
+	rlutil "github.com/kubewharf/kubegateway/pkg/ratelimiter/util"
 	upstreamclusteradmission "github.com/kubewharf/kubegateway/plugin/admission/upstreamcluster"
 
 	"verif.local/harness/internal/vio"
@@ -65,6 +66,7 @@ type tcase struct {
 	O    absObj `json:"o"`
 	Must bool   `json:"must"`
 	Var  int    `json:"var"` // concretisation variant
+	Prev *tcase `json:"prev,omitempty"` // replay: the accepted object this one is applied over
 }
 
 var pairs = map[string][2][]byte{}
@@ -182,6 +184,13 @@ func concretise(c tcase) *proxyv1alpha1.UpstreamCluster {
 		sv.CertData, sv.KeyData = scert, otherKey
 	case "certonly":
 		sv.CertData = scert
+	case "certonly2": // only a certificate - of ANOTHER key pair than the one class "pair" serves
+		sv.CertData, _ = pair("serving-2")
+	case "keyonly2": // only a key - of another key pair
+		_, sv.KeyData = pair("serving-2")
+	case "pair2":
+		c2, k2 := pair("serving-2")
+		sv.CertData, sv.KeyData = c2, k2
 	case "garbage":
 		sv.CertData, sv.KeyData = []byte("garbage cert"), []byte("garbage key")
 	case "badca":
@@ -430,6 +439,114 @@ func apply(t *testing.T, uc *proxyv1alpha1.UpstreamCluster) (outcome string) {
 	return outcome
 }
 
+// reportFor builds the status report a gateway instance would send for every max-in-flight / token-bucket schema of uc
+func reportFor(uc *proxyv1alpha1.UpstreamCluster, inst string) *proxyv1alpha1.RateLimitCondition {
+	cond := &proxyv1alpha1.RateLimitCondition{
+		ObjectMeta: metav1.ObjectMeta{Name: rlutil.GenerateRateLimitConditionName(uc.Name, inst)},
+		Spec:       proxyv1alpha1.RateLimitSpec{UpstreamCluster: uc.Name, Instance: inst},
+	}
+	for _, sch := range uc.Spec.FlowControl.Schemas {
+		var d proxyv1alpha1.LimitItemDetail
+		switch {
+		case sch.MaxRequestsInflight != nil:
+			d.MaxRequestsInflight = &proxyv1alpha1.MaxRequestsInflightFlowControlSchema{Max: 1}
+		case sch.TokenBucket != nil:
+			d.TokenBucket = &proxyv1alpha1.TokenBucketFlowControlSchema{QPS: 1, Burst: 1}
+		default:
+			continue
+		}
+		cond.Spec.LimitItemConfigurations = append(cond.Spec.LimitItemConfigurations, proxyv1alpha1.RateLimitItemConfiguration{Name: sch.Name, Strategy: sch.Strategy, LimitItemDetail: d})
+		cond.Status.LimitItemStatuses = append(cond.Status.LimitItemStatuses, proxyv1alpha1.RateLimitItemStatus{Name: sch.Name, LimitItemDetail: *d.DeepCopy(), RequestLevel: 100})
+	}
+	return cond
+}
+
+// applyAfter applies the accepted object uc ON TOP OF the accepted object prev (the normal life of a cluster: create, then update): directly
+// (CreateClusterInfo(prev) + Sync(uc)), and on a running gateway controller and limiter server whose instances report before and after
+func applyAfter(t *testing.T, prev, uc *proxyv1alpha1.UpstreamCluster) (outcome string) {
+	outcome = "ok"
+	uc = uc.DeepCopy()
+	uc.Name = prev.Name
+	synctest.Test(t, func(t *testing.T) {
+		func() {
+			ci, err := clusters.CreateClusterInfo(prev.DeepCopy(), nil, "local", nil)
+			if err != nil {
+				return // (judged by the single-object stage)
+			}
+			if err := ci.Sync(uc.DeepCopy()); err != nil {
+				outcome = "error: Sync over the previous object: " + err.Error()
+			}
+			ci.VerifStopFlowControls()
+			ci.Stop()
+		}()
+		gw := gatewayfake.NewSimpleClientset()
+		kube := kubefake.NewSimpleClientset()
+		stop := make(chan struct{})
+		factory := gatewayinformers.NewSharedInformerFactory(gw, 10*time.Minute)
+		ctrl := controllers.NewUpstreamClusterController(factory.Proxy().V1alpha1().UpstreamClusters(), &proxyoptions.RateLimiterOptions{RateLimiter: "local"})
+		go factory.Start(stop)
+		go ctrl.Run(stop)
+		rl, err := limiter.NewRateLimiter(gw, kube, options.RateLimitOptions{ShardingCount: 1, LimitStore: "local", Identity: "A",
+			LeaderElectionConfiguration: componentbaseconfig.LeaderElectionConfiguration{LeaderElect: true, ResourceLock: "leases", ResourceNamespace: "kube-system", ResourceName: "rl",
+				LeaseDuration: metav1.Duration{Duration: 15 * time.Second}, RenewDeadline: metav1.Duration{Duration: 10 * time.Second}, RetryPeriod: metav1.Duration{Duration: 2 * time.Second}}})
+		if err != nil {
+			t.Fatalf("NewRateLimiter: %v", err)
+		}
+		go rl.Run(stop)
+		time.Sleep(3 * time.Second)
+		synctest.Wait()
+		infos := map[*clusters.ClusterInfo]bool{}
+		remember := func() {
+			if ci, ok := ctrl.Get(prev.Name); ok {
+				infos[ci] = true
+			}
+		}
+		reports := func(o *proxyv1alpha1.UpstreamCluster) {
+			for _, inst := range []string{"i1", "i2", "i1"} {
+				rl.Heartbeat("i1")
+				rl.Heartbeat("i2")
+				rl.UpdateRateLimitConditionStatus(o.Name, reportFor(o, inst)) // an error answer is fine (e.g. the instance still has the old schema type); a panic is not
+			}
+		}
+		if _, err := gw.ProxyV1alpha1().UpstreamClusters().Create(context.TODO(), prev.DeepCopy(), metav1.CreateOptions{}); err == nil {
+			time.Sleep(time.Second)
+			synctest.Wait()
+			remember()
+			reports(prev)
+			if cur, _ := gw.ProxyV1alpha1().UpstreamClusters().Get(context.TODO(), prev.Name, metav1.GetOptions{}); cur != nil {
+				u := uc.DeepCopy()
+				u.ResourceVersion = cur.ResourceVersion
+				gw.ProxyV1alpha1().UpstreamClusters().Update(context.TODO(), u, metav1.UpdateOptions{})
+				time.Sleep(time.Second)
+				synctest.Wait()
+				remember()
+				reports(uc)
+				if _, err := rl.GetUpstreamStatus(uc.Name); err != nil && outcome == "ok" {
+					outcome = "error: the limiter server lost the upstream after the update: " + err.Error()
+				}
+				cur, _ = gw.ProxyV1alpha1().UpstreamClusters().Get(context.TODO(), prev.Name, metav1.GetOptions{})
+				e := cur.DeepCopy()
+				e.Spec.FlowControl = proxyv1alpha1.FlowControl{}
+				gw.ProxyV1alpha1().UpstreamClusters().Update(context.TODO(), e, metav1.UpdateOptions{})
+				time.Sleep(time.Second)
+				synctest.Wait()
+				remember()
+				gw.ProxyV1alpha1().UpstreamClusters().Delete(context.TODO(), prev.Name, metav1.DeleteOptions{})
+				time.Sleep(time.Second)
+				synctest.Wait()
+			}
+		}
+		for ci := range infos {
+			ci.VerifStopFlowControls()
+			ci.Stop()
+		}
+		close(stop)
+		time.Sleep(120 * time.Second)
+		synctest.Wait()
+	})
+	return outcome
+}
+
 func TestDrive(t *testing.T) {
 	in, outp := os.Getenv("VERIF_IN"), os.Getenv("VERIF_OUT")
 	if in == "" {
@@ -461,7 +578,12 @@ func TestDrive(t *testing.T) {
 		pre, _ := json.Marshal(map[string]interface{}{"id": c.ID, "partial": true, "validate": verdict})
 		f.Write(append(pre, '\n'))
 		if verdict == "accepted" {
-			out["apply"] = apply(t, uc)
+			if c.Prev != nil {
+				// a PAIR: the accepted object is applied as an update of another accepted object (the normal life of a cluster)
+				out["apply"] = applyAfter(t, concretise(*c.Prev), uc)
+			} else {
+				out["apply"] = apply(t, uc)
+			}
 		}
 		line, _ := json.Marshal(out)
 		f.Write(append(line, '\n'))
